@@ -456,9 +456,15 @@ func (p *Proxy) handleConnectRequest(ctx *Context, req *http.Request, session *S
 		donec <- true
 	}
 
+	// The deadline on the client connection is an idle timeout: bytes moving
+	// through the tunnel in either direction push it back, as every request
+	// does on a connection that is not a tunnel.
+	touch := func() { conn.SetDeadline(time.Now().Add(p.timeout)) }
+	touch()
+
 	donec := make(chan bool, 2)
-	go copySync(cconn, brw.Reader, donec)
-	go copySync(conn, cconn, donec)
+	go copySync(cconn, activeReader{brw.Reader, touch}, donec)
+	go copySync(conn, activeReader{cconn, touch}, donec)
 
 	log.Debugf("martian: established CONNECT tunnel, proxying traffic")
 	<-donec
@@ -642,6 +648,20 @@ func (c *peekedConn) CloseWrite() error {
 		return cw.CloseWrite()
 	}
 	return c.Conn.Close()
+}
+
+// activeReader calls touch after every read that returned data.
+type activeReader struct {
+	io.Reader
+	touch func()
+}
+
+func (a activeReader) Read(b []byte) (int, error) {
+	n, err := a.Reader.Read(b)
+	if n > 0 {
+		a.touch()
+	}
+	return n, err
 }
 
 func (p *Proxy) roundTrip(ctx *Context, req *http.Request) (*http.Response, error) {
